@@ -29,6 +29,7 @@ def run(ctx, rep):
     where = os.path.relpath(ctx.grammar.path, facts.REPO)
     rep.rule("C06-R1", "inclusion RFC <= impl at main/Q/L/F (modulo absorbed blank): no RFC-only divergence", floor=4)
     G.check_side_conditions(rep, "C06-R1", res, where)
+    G.model_limits(rep, "C06-R1", res, where, "rfc<=impl")
     divs = GM.divergences(res)
     for cmp_ in res["engine"]["compare"]:
         n = sum(1 for d in cmp_["divergences"] if d["dir"] == "rfc-only")
